@@ -2,6 +2,7 @@ package main
 
 import (
 	"fmt"
+	"go/ast"
 	"go/token"
 	"go/types"
 	"os"
@@ -43,39 +44,48 @@ type fpEntry struct {
 	pkg   string // import path
 	recv  string // "" or the receiver's named type (pointer receiver)
 	fn    string
-	perUE bool // part of the property's "for different UEs" entry points
+	perUE bool      // part of the property's "for different UEs" entry points
+	self  *fpExpect // self-test function: the footprint it must have
 }
 
 var fpEntries = []fpEntry{
-	{"ngap.Encoder", "free5gclib/ngap", "", "Encoder", true},
-	{"ngap.Decoder", "free5gclib/ngap", "", "Decoder", true},
-	{"aper.Marshal", "free5gclib/aper", "", "Marshal", true},
-	{"aper.MarshalWithParams", "free5gclib/aper", "", "MarshalWithParams", true},
-	{"aper.Unmarshal", "free5gclib/aper", "", "Unmarshal", true},
-	{"aper.UnmarshalWithParams", "free5gclib/aper", "", "UnmarshalWithParams", true},
-	{"nas.Message.PlainNasEncode", "free5gclib/nas", "Message", "PlainNasEncode", true},
-	{"nas.Message.PlainNasDecode", "free5gclib/nas", "Message", "PlainNasDecode", true},
-	{"tglib.NASEncode", "tglib", "", "NASEncode", true},
-	{"tglib.NASDecode", "tglib", "", "NASDecode", true},
-	{"security.NASEncrypt", "free5gclib/nas/security", "", "NASEncrypt", true},
-	{"security.NASMacCalculate", "free5gclib/nas/security", "", "NASMacCalculate", true},
-	{"tglib.RanUeContext.DeriveRESstarAndSetKey", "tglib", "RanUeContext", "DeriveRESstarAndSetKey", true},
-	{"UeauCommon.GetKDFValue", "free5gclib/UeauCommon", "", "GetKDFValue", true},
-	{"milenage.F1", "free5gclib/milenage", "", "F1", true},
-	{"milenage.F2345", "free5gclib/milenage", "", "F2345", true},
-	{"milenage.GenerateOPC", "free5gclib/milenage", "", "GenerateOPC", true},
-	{"milenage.MilenageGenerate", "free5gclib/milenage", "", "MilenageGenerate", true},
-	{"milenage.Milenage_check", "free5gclib/milenage", "", "Milenage_check", true},
-	{"milenage.Milenage_auts", "free5gclib/milenage", "", "Milenage_auts", true},
-	{"tglib.EncodeNasPduWithSecurity", "tglib", "", "EncodeNasPduWithSecurity", true},
-	{"tglib.GetNasPdu", "tglib", "", "GetNasPdu", true},
+	{"ngap.Encoder", "free5gclib/ngap", "", "Encoder", true, nil},
+	{"ngap.Decoder", "free5gclib/ngap", "", "Decoder", true, nil},
+	{"aper.Marshal", "free5gclib/aper", "", "Marshal", true, nil},
+	{"aper.MarshalWithParams", "free5gclib/aper", "", "MarshalWithParams", true, nil},
+	{"aper.Unmarshal", "free5gclib/aper", "", "Unmarshal", true, nil},
+	{"aper.UnmarshalWithParams", "free5gclib/aper", "", "UnmarshalWithParams", true, nil},
+	{"nas.Message.PlainNasEncode", "free5gclib/nas", "Message", "PlainNasEncode", true, nil},
+	{"nas.Message.PlainNasDecode", "free5gclib/nas", "Message", "PlainNasDecode", true, nil},
+	{"tglib.NASEncode", "tglib", "", "NASEncode", true, nil},
+	{"tglib.NASDecode", "tglib", "", "NASDecode", true, nil},
+	{"security.NASEncrypt", "free5gclib/nas/security", "", "NASEncrypt", true, nil},
+	{"security.NASMacCalculate", "free5gclib/nas/security", "", "NASMacCalculate", true, nil},
+	{"tglib.RanUeContext.DeriveRESstarAndSetKey", "tglib", "RanUeContext", "DeriveRESstarAndSetKey", true, nil},
+	{"UeauCommon.GetKDFValue", "free5gclib/UeauCommon", "", "GetKDFValue", true, nil},
+	{"milenage.F1", "free5gclib/milenage", "", "F1", true, nil},
+	{"milenage.F2345", "free5gclib/milenage", "", "F2345", true, nil},
+	{"milenage.GenerateOPC", "free5gclib/milenage", "", "GenerateOPC", true, nil},
+	{"milenage.MilenageGenerate", "free5gclib/milenage", "", "MilenageGenerate", true, nil},
+	{"milenage.Milenage_check", "free5gclib/milenage", "", "Milenage_check", true, nil},
+	{"milenage.Milenage_auts", "free5gclib/milenage", "", "Milenage_auts", true, nil},
+	{"tglib.EncodeNasPduWithSecurity", "tglib", "", "EncodeNasPduWithSecurity", true, nil},
+	{"tglib.GetNasPdu", "tglib", "", "GetNasPdu", true, nil},
 }
 
 // fpTrustedPkgs: third-party packages that are handed values loaded from the repo's globals and are in the
 // trusted base (DESIGN.md section 6): logrus serialises its entries/loggers internally (Logger.mu, atomic level).
 var fpTrustedPkgs = map[string]bool{"github.com/sirupsen/logrus": true}
 
+// fpSelfTest: a package of small functions with known footprints, analysed on every run (see its doc comments)
+const fpSelfTest = "verifharness/internal/fptest"
+
+type fpExpect struct{ r, w, s []string }
+
 func fpOwnPath(p string) bool {
+	if p == fpSelfTest {
+		return true
+	}
 	for _, r := range []string{"free5gclib", "tglib", "stgutg"} {
 		if p == r || strings.HasPrefix(p, r+"/") {
 			return true
@@ -308,6 +318,20 @@ func (a *fpAnalysis) useInCall(site ssa.CallInstruction, v ssa.Value, root *ssa.
 		}
 		return
 	}
+	if !c.IsInvoke() && c.Value == v {
+		// the value is the func being called (a func loaded from a global): calling it reads it; what runs is
+		// covered by the call graph
+		a.read(instr, root)
+	}
+	isActual := c.IsInvoke() && c.Value == v
+	for _, x := range c.Args {
+		if x == v {
+			isActual = true
+		}
+	}
+	if !isActual {
+		return
+	}
 	cs := a.callees(site)
 	if len(cs) == 0 {
 		a.failf(instr, "call with a value rooted at global %s has no resolvable callee", root)
@@ -359,10 +383,6 @@ func (a *fpAnalysis) useInCall(site ssa.CallInstruction, v ssa.Value, root *ssa.
 			if act == v {
 				a.push(params[k], root, addr)
 			}
-		}
-		if !c.IsInvoke() && c.Value == v {
-			// the callee itself is the value (a func loaded from a global): calling reads it
-			a.read(instr, root)
 		}
 	}
 }
@@ -491,7 +511,7 @@ func genFootprint() error {
 	for p := range patSet {
 		pats = append(pats, p)
 	}
-	pats = append(pats, "tglib/ngapTestpacket", "free5gclib/nas/nasTestpacket")
+	pats = append(pats, "tglib/ngapTestpacket", "free5gclib/nas/nasTestpacket", fpSelfTest)
 	sort.Strings(pats)
 	pkgs, err := packages.Load(cfg, pats...)
 	if err != nil {
@@ -548,8 +568,53 @@ func genFootprint() error {
 			if bp.pkg == "tglib" && n == "ConnectToAmf" {
 				continue // opens the SCTP association: not a codec / security function
 			}
-			fpEntries = append(fpEntries, fpEntry{bp.short + "." + n, bp.pkg, "", n, false})
+			fpEntries = append(fpEntries, fpEntry{bp.short + "." + n, bp.pkg, "", n, false, nil})
 		}
+	}
+	// self-test entries: every documented function of the self-test package, with the footprint its comment states
+	nSelf := 0
+	for _, lp := range pkgs {
+		if lp.PkgPath != fpSelfTest {
+			continue
+		}
+		for _, file := range lp.Syntax {
+			for _, d := range file.Decls {
+				fd, ok := d.(*ast.FuncDecl)
+				if !ok || fd.Recv != nil || fd.Doc == nil || !fd.Name.IsExported() {
+					continue
+				}
+				line := strings.TrimSpace(strings.SplitN(fd.Doc.Text(), "\n", 2)[0])
+				if !strings.HasPrefix(line, fd.Name.Name+":") {
+					return fail("%s: self-test function %s has no expectation comment", lp.Fset.Position(fd.Pos()), fd.Name.Name)
+				}
+				line = strings.TrimPrefix(line, fd.Name.Name+":")
+				if i := strings.Index(line, "("); i >= 0 {
+					line = line[:i]
+				}
+				ex := &fpExpect{}
+				cur := (*[]string)(nil)
+				for _, tok := range strings.Fields(line) {
+					switch tok {
+					case "R":
+						cur = &ex.r
+					case "W":
+						cur = &ex.w
+					case "S":
+						cur = &ex.s
+					default:
+						if cur == nil {
+							return fail("%s: malformed expectation for %s", lp.Fset.Position(fd.Pos()), fd.Name.Name)
+						}
+						*cur = append(*cur, tok)
+					}
+				}
+				fpEntries = append(fpEntries, fpEntry{"selftest." + fd.Name.Name, fpSelfTest, "", fd.Name.Name, false, ex})
+				nSelf++
+			}
+		}
+	}
+	if nSelf < 20 {
+		return fail("self-test package %s: only %d documented functions found", fpSelfTest, nSelf)
 	}
 	// entry functions
 	entries := make([]*ssa.Function, len(fpEntries))
@@ -692,6 +757,41 @@ func genFootprint() error {
 		rows[k] = r
 	}
 	gname := func(g *ssa.Global) string { return g.Pkg.Pkg.Path() + "." + g.Name() }
+	// self-test verdict: the computed footprint over the self-test package's variables must be the stated one
+	var selfErrs []string
+	for k, e := range fpEntries {
+		if e.self == nil {
+			continue
+		}
+		got := func(m map[*ssa.Global]bool) string {
+			var xs []string
+			for g := range m {
+				if g.Pkg.Pkg.Path() == fpSelfTest {
+					xs = append(xs, g.Name())
+				}
+			}
+			sort.Strings(xs)
+			return strings.Join(xs, " ")
+		}
+		want := func(xs []string) string {
+			ys := append([]string{}, xs...)
+			sort.Strings(ys)
+			return strings.Join(ys, " ")
+		}
+		r := rows[k]
+		if got(r.reads) != want(e.self.r) || got(r.writes) != want(e.self.w) || got(r.shares) != want(e.self.s) {
+			selfErrs = append(selfErrs, fmt.Sprintf("%s: computed R[%s] W[%s] S[%s], stated R[%s] W[%s] S[%s]", e.name,
+				got(r.reads), got(r.writes), got(r.shares), want(e.self.r), want(e.self.w), want(e.self.s)))
+		}
+	}
+	if len(selfErrs) > 0 {
+		return fail("self-test of the footprint analysis failed:\n  %s", strings.Join(selfErrs, "\n  "))
+	}
+	for g := range globals {
+		if g.Pkg.Pkg.Path() == fpSelfTest {
+			delete(globals, g)
+		}
+	}
 	var gl []*ssa.Global
 	for g := range globals {
 		gl = append(gl, g)
@@ -745,7 +845,7 @@ func genFootprint() error {
 		fmt.Fprintf(&b, "\n/-- %s -/\ndef %s : List Entry := [", doc, name)
 		first := true
 		for k, e := range fpEntries {
-			if e.perUE != core {
+			if e.perUE != core || e.self != nil {
 				continue
 			}
 			if !first {
